@@ -9,6 +9,7 @@ import (
 	"verif/engine/shard"
 	"verif/props/c01"
 	"verif/props/c02"
+	"verif/props/c03"
 	"verif/props/c09"
 	"verif/props/c10"
 	"verif/props/c11"
@@ -28,6 +29,7 @@ type prop struct {
 var props = map[string]prop{
 	"C01": {"exploration", c01.Run},
 	"C02": {"exploration", c02.Run},
+	"C03": {"exploration", c03.Run},
 	"C09": {"model_checking", c09.Run},
 	"C10": {"model_checking", c10.Run},
 	"C11": {"model_checking", c11.Run},
